@@ -153,9 +153,13 @@ def _run_verus_unit(u, tier):
     canary_failed = set()
     unlabelled_in_block = {}
     try:
-        closure_base = json.load(open(os.path.join(u['dir'], 'closures.json')))
+        cb = json.load(open(os.path.join(u['dir'], 'closures.json')))
     except Exception:
-        closure_base = {}
+        cb = {}
+    closure_base = cb.get('bare_closures', {})
+    from .closure_baseline import contract_free_calls
+    cf_now = contract_free_calls(gen, u)
+    cf_base = cb.get('contract_free_calls', {})
     for f in r.failures:
         if f['label'] and f['label'].startswith('CANARY.'):
             canary_failed.add(f['label'])
@@ -175,6 +179,12 @@ def _run_verus_unit(u, tier):
         name = f['label'] or '%s::%s::%s' % (u['name'], f['block'] or '<unit>', f['message'])
         props = label_props(f['label']) if f['label'] else (f['serves'] or u.get('serves', []))
         f['obligation'] = name
+        new_cf = sorted(set(cf_now.get(f['block'], [])) - set(cf_base.get(f['block'], []))) if f['block'] else []
+        if new_cf:
+            # the function now calls a stand-in without a contract (any result possible) that it
+            # did not call when its contract was written: the failure may be an artefact of that
+            # over-approximation; it is reported only if a witness reproduces it on the real code
+            f['needs_witness'] = 'the failing function now calls contract-free stand-in(s) %s' % ', '.join(new_cf)
         f['props'] = props
         failed.setdefault(name, f)
         if not f['label']:
@@ -367,6 +377,17 @@ def main():
                 continue
             if f.get('spurious'):
                 undecided.append('%s: counterexample for %s did not reproduce on the real code (model artefact)' % (r['unit'], f['obligation']))
+                continue
+            if f.get('needs_witness') and not found_input:
+                undecided.append('%s: %s: %s, and no witness reproduces the failure on the real code' % (r['unit'], f['obligation'], f['needs_witness']))
+                continue
+            if (r.get('backend') == 'verus' and not f.get('label') and not found_input
+                    and ('arithmetic' in f.get('message', '') or 'overflow' in f.get('message', ''))):
+                # an unlabelled arithmetic side condition (e.g. a new counter `n += 1`) that Verus
+                # cannot bound without an invariant nobody wrote for the new code: "needs
+                # contract", not a refutation of the property. Only a failing input makes it one.
+                undecided.append('%s: %s (%s) is an arithmetic side condition without a failing input: needs an invariant for the changed code, not a refutation' % (
+                    r['unit'], f['obligation'], f.get('message', '')))
                 continue
             tail = '' if found_input else ' no-failing-input-found'
             lines.append('VIOLATION property=%s replay=%s obligation=%s%s' % (a.prop, path, f['obligation'], tail)
